@@ -33,7 +33,8 @@ LEVEL_ASSUMPTIONS = [
 REQUIRED = {"histories": 20, "events_checked": 300, "mode_switches": 40,
             "raw_evaluates_after_model_mode": 20, "failure_values_1e200": 5,
             "per_case_j_recomputed": 100, "surrogate_histories": 1,
-            "collection_growth_checked": 100}
+            "collection_growth_checked": 100,
+            "histories_with_one_failing_training_case": 3}
 
 
 def plan(tier: str, seed: int):
@@ -140,7 +141,24 @@ def make_instance(rng):
     setattr(sysm, "training_steps", int(rng.integers(10, 40)))
     setattr(sysm, "training_time", float(rng.choice([1.0, 3.0, 8.0])))
     setattr(sysm, "equations", RhsGuard(sysm.equations, 2_500_000))
-    fam = int(rng.integers(6))
+    fam = int(rng.integers(7))
+    if fam == 6 or (k >= 2 and fam == 5 and rng.integers(2)):
+        # a user's own controller: weak linear feedback, but for parameter
+        # vectors with params[-1] > 0.5 it saturates (1e12) exactly at the
+        # start state of ONE training case - the simulation of that case
+        # alone fails at t = 0
+        from moptipyapps.dynamic_control.controller import Controller
+        which = int(rng.choice([0, k - 1, k - 1, int(rng.integers(k))]))
+        trig = np.array(sysm.training_starting_states[which], float)
+        nd = sysm.state_dims
+
+        def cfun(state, t, params, out, trig=trig, nd=nd):
+            out[0] = float(params[0:nd] @ state) * 0.05
+            if params[nd] > 0.5 and t == 0.0 and np.array_equal(state, trig):
+                out[0] = 1e12
+        ctrl = Controller(f"trigger{which}of{k}", nd, 1, nd + 1, cfun)
+        setattr(ctrl, "_verif_trigger", which)
+        return Instance(sysm, ctrl)
     if fam == 0:
         ctrl = linear(sysm)
     elif fam == 1:
@@ -368,8 +386,13 @@ def run_history(ctx, rng, cls, inst, collecting, ops, pool, models, case):
     return obj
 
 
-def gen_pool(rng, dim):
+def gen_pool(rng, dim, trigger=False):
     pool = [rng.uniform(-0.3, 0.3, dim)]      # pool[0]: well-behaved
+    if trigger:
+        pool[0][-1] = 0.0
+        v = rng.uniform(-0.3, 0.3, dim)
+        v[-1] = 1.0                           # fails on exactly one case
+        pool.append(v)
     for _ in range(int(rng.integers(4, 7))):
         k = int(rng.integers(5))
         if k == 0:
@@ -425,7 +448,14 @@ def random_history(ctx, rng):
     cls = FigureOfMeritLE if rng.integers(2) else FigureOfMerit
     collecting = bool(rng.integers(5) != 0)
     dim = inst.controller.param_dims
-    pool = gen_pool(rng, dim)
+    trig = hasattr(inst.controller, "_verif_trigger")
+    pool = gen_pool(rng, dim, trig)
+    if trig:
+        ctx.count("histories_with_one_failing_training_case")
+        ctx.count("failing_case_is_the_last_one" if
+                  inst.controller._verif_trigger == len(
+                      inst.system.training_starting_states) - 1
+                  else "failing_case_is_an_earlier_one")
     n = inst.system.state_dims
     models = [GuardedModel(make_linear_model(rng, n, inst.system.control_dims),
                            inst.system.equations) for _ in range(2)]
